@@ -63,6 +63,26 @@ class Contract:
         if "self" in pre and outcome[0] == want[0] and getattr(self, "compare_state", True):
             # methods: the specification mutates its (copied) receiver; the final states must agree
             assert_same("self", post["self"], pre["self"], "post")
+        self.check_frame(c, pre, post, outcome)
+
+    mutates = ()             # names of array arguments the function is allowed to write into
+
+    def check_frame(self, c, pre, post, outcome):
+        """frame: a function that returns leaves every array (and list of arrays) it was handed as it found it, unless the contract
+        names the argument in `mutates` (pre holds deep copies taken before the call, post the argument objects after it)"""
+        from . import sym
+        if outcome[0] != "return":
+            return
+        for k, v in pre.items():
+            if k == "self" or k in self.mutates:
+                continue
+            w = post.get(k)
+            if isinstance(v, sym.Arr) and isinstance(w, sym.Arr):
+                assert_same(f"frame.{k}", w, v, "post")
+            elif isinstance(v, (list, tuple)) and isinstance(w, (list, tuple)) and len(v) == len(w) and v and all(isinstance(x, sym.Arr) for x in v) \
+                    and all(isinstance(x, sym.Arr) for x in w):
+                for i, (a, b) in enumerate(zip(w, v)):
+                    assert_same(f"frame.{k}[{i}]", a, b, "post")
 
     def compare_outcome(self, c, outcome, want):
         if outcome[0] != want[0]:
